@@ -61,3 +61,15 @@ Theorem C15_locked_insert_on_c_table_never_throws :
   snd (uprase_gen c hash true t k v g) = inr (ins, lg, pos)).
 Proof. exact c_table_locked_insert_never_throws. Qed.
 Print Assumptions C15_locked_insert_on_c_table_never_throws.
+
+(* ---- ENOMEM leaves the table valid: the automatic doubling behind the C insert functions allocates before it publishes anything (Effects.v, on the effect order generated from the source) ---- *)
+From LC Require Import gen.EffectOrder Effects.
+Theorem C15_doubling_failure_publishes_nothing :
+  forall (k : nat) (b : bool), run fast_double_effects k false = Some b -> b = false.
+Proof. exact fast_double_failure_atomic. Qed.
+Print Assumptions C15_doubling_failure_publishes_nothing.
+
+Theorem C15_rebuild_failure_publishes_nothing :
+  forall (k : nat) (b : bool), run expand_simple_effects k false = Some b -> b = false.
+Proof. exact expand_simple_failure_atomic. Qed.
+Print Assumptions C15_rebuild_failure_publishes_nothing.
